@@ -160,6 +160,26 @@ def check(case):
     if not faults:
         res.label("fault-not-placeable")
         return res
+    if any(e == "skip" for _k, e in faults):
+        # run-time exclusion by a before-hook (element.skip()): no hook error at all; hooks are
+        # not called for the skipped elements below it, the after-hooks of the element still run
+        prog["hook_faults"] = faults
+        ref = refmodel.simulate(prog)
+        run = run_program(prog)
+        if run.escaped is not None:
+            res.fail("C12.escape", "exception escaped run(): %r" % (run.escaped,))
+            return res
+        err = recognise(list(map(tuple, run.hooks)))
+        if err:
+            res.fail("C12.nesting", err)
+        runcheck.check_hooks(res, "C12.skip", ref, run)
+        runcheck.check_calls(res, "C12.skip", ref, run)
+        runcheck.check_step_statuses(res, "C12.skip", ref, run)
+        runcheck.check_verdict(res, "C12.skip.verdict", ref, run)
+        if ref.skipped_by_hook:
+            res.label("skip-in-hook:" + sorted(ref.skipped_by_hook)[0][0])
+            res.nontrivial = True
+        return res
     prog["hook_faults"] = faults
     ref = refmodel.simulate(prog)
     run = run_program(prog)
@@ -322,6 +342,9 @@ def explore(rec):
         for k in range(n):
             for e in excs:
                 rec.record({"program": prog, "faults": [[k, e]]}, sub="every-hook-call")
+        for k in range(n):
+            if base_ref.hooks[k][0] in ("before_feature", "before_rule", "before_scenario"):
+                rec.record({"program": prog, "faults": [[k, "skip"]]}, sub="skip-in-before-hook")
         if n <= 14:
             for k1 in range(n):
                 for k2 in range(k1 + 1, n):
@@ -343,7 +366,8 @@ def required_labels(tier):
     return ["inject:" + h for h in ["before_all", "after_all", "before_feature", "after_feature", "before_rule",
                                     "after_rule", "before_scenario", "after_scenario", "before_step", "after_step",
                                     "before_tag", "after_tag"]] + ["faults:2", "stop", "AssertionError", "fault-free",
-                                                                     "dry-run"]
+                                                                     "dry-run", "skip-in-hook:feature",
+                                                                     "skip-in-hook:rule", "skip-in-hook:scenario"]
 
 
 KNOWN_PREDICATES = {}
